@@ -471,7 +471,7 @@ def _run_timing(case):
     def once(k):
         text = _timing_text(fam, k)
         best = None
-        for _ in range(2):
+        for _ in range(3):
             l = _x.ModelLoader()
             t0 = time.perf_counter()
             try:
